@@ -222,6 +222,12 @@ func (a *actors) apply(ctx context.Context, o Op) OpResult {
 				io.CopyN(io.Discard, sr, int64(junk))
 				src = sr
 			}
+			if o.Shape == "failing" {
+				// a source that fails part-way (the offset is a function of the write id): the write
+				// must fail and store nothing
+				fired := false
+				src = &failingReader{b: payload(o.ID, o.Size), failAt: int((o.ID * 7919) % uint64(o.Size+1)), fired: &fired, chunk: 1500}
+			}
 			r.Err = s.SetReader(ctx, o.Key, src)
 		case "create":
 			f, err := s.Create(ctx, o.Key)
